@@ -10,7 +10,7 @@ declare -A PROP=( [revert-f1]=C09 [revert-f2]=C10 [revert-f3]=C10 [revert-f4]=C0
 tags=${@:-${!PROP[@]}}
 rc=0
 for t in $tags; do
-  p=selftest/mutants/$t.patch; prop=${PROP[$t]}
+  p=/verif/selftest/mutants/$t.patch; prop=${PROP[$t]}
   git -C /repo apply --check $p 2>/dev/null || { echo "$t: PATCH DOES NOT APPLY"; rc=1; continue; }
   git -C /repo apply $p
   out=$(bin/govc check -property $prop 2>&1); code=$?
